@@ -281,4 +281,17 @@ def simpleProofsFromMap (H : Bytes → Bytes) (entries : List (Bytes × Bytes)) 
 `KVPair{key, tmhash(value)}.Bytes()` -/
 def mapLeaf (H : Bytes → Bytes) (key value : Bytes) : Bytes := KV.bytes ⟨key, H value⟩
 
+inductive ValueOpErr where
+  | leafHash | root
+deriving Repr, DecidableEq
+
+/-- `SimpleValueOp.Run([value])` (proof_simple_value.go) followed by the root
+comparison of `ProofOperators.Verify`: hash the value, wrap `<key, vhash>` as a
+KVPair leaf, compare its leaf hash with the proof's, compute the root, compare. -/
+def valueOpVerify (H : Bytes → Bytes) (key value : Bytes) (root : Option Bytes) (p : SimpleProof) :
+    Except ValueOpErr Unit :=
+  if ¬ bytesEqual (some (leafHash H (mapLeaf H key value))) p.leafHash then .error .leafHash
+  else if ¬ bytesEqual root (p.computeRootHash H) then .error .root
+  else .ok ()
+
 end GnoVerif.C25
